@@ -116,8 +116,10 @@ def run(chk):
     # the sibling cross-checks of C03 (control/AVPs) and C04 (data messages) are re-established here
     import rules.c03 as c03
     import rules.c04 as c04
+    import rules.c07 as c07
     c03.run_config(chk, "default")
     c04.run_config(chk, "default")
+    c07.run_config(chk, "default")      # the re-encoded lengths must be exact for the second decode to see the same records
     if chk.tier == "thorough":
         for cfg in ("debug", "release"):
             run_config(chk, cfg)
